@@ -1,6 +1,7 @@
 //! C17 — serial numbers and signature times obey RFC 1982.
 pub mod users;
 pub mod sign;
+pub mod newapi;
 use crate::engine::*;
 use crate::gen::*;
 use crate::refimpl::serial as rs;
@@ -234,7 +235,10 @@ fn extra(opts: &RunOpts, agg: &mut Agg) -> Result<(), (Violation, Vec<u8>)> {
                 let mut c = 0u64;
                 let mut nt = 0u64;
                 for &a in bases.iter() {
-                    for &(lo, hi) in ranges.iter() {
+                    for (ri, &(lo, hi)) in ranges.iter().enumerate() {
+                        // the new-API serial type: all differences in the thorough tier,
+                        // the boundary windows (0, 2^31, 2^32) in the quick tier
+                        let new_too = ranges.len() == 1 || ri >= 1;
                         let per = (hi - lo).div_ceil(threads);
                         let l = lo + t * per;
                         let h = (l + per).min(hi);
@@ -258,6 +262,16 @@ fn extra(opts: &RunOpts, agg: &mut Agg) -> Result<(), (Violation, Vec<u8>)> {
                                 if s.into_int() != b || !(s > Serial(a)) {
                                     bad = true;
                                 }
+                            }
+                            if !bad && new_too && !newapi::sweep_one(a, d) {
+                                stop.store(true, AO::Relaxed);
+                                let mut bytes = a.to_le_bytes().to_vec();
+                                bytes.extend_from_slice(&b.to_le_bytes());
+                                *fail.lock().unwrap() = Some((Violation::new("sweep:new-cmp-or-inc", format!("new::base::Serial: a={a} b={b} d={d}: partial_cmp/inc disagree with RFC 1982")), bytes));
+                                return;
+                            }
+                            if new_too {
+                                c += 1;
                             }
                             if bad {
                                 stop.store(true, AO::Relaxed);
@@ -303,7 +317,10 @@ fn replay_extra(data: &[u8], _ctx: &mut Ctx) -> CaseResult {
     let a = u32::from_le_bytes(data[0..4].try_into().unwrap());
     let b = u32::from_le_bytes(data[4..8].try_into().unwrap());
     check_pair(a, b, "sweep")?;
+    newapi::check_new_pair(a, b, "sweep:new")?;
+    newapi::check_new_pair(b, a, "sweep:new")?;
     let d = b.wrapping_sub(a);
+    vensure!(newapi::sweep_one(a, d as u64), "sweep:new-cmp-or-inc", "new::base::Serial: a={a} b={b}");
     if d >= 1 && d < (1 << 31) {
         let s = Serial(a).add(d);
         vensure!(s.into_int() == b && s > Serial(a), "sweep:cmp-or-add", "add");
@@ -312,7 +329,7 @@ fn replay_extra(data: &[u8], _ctx: &mut Ctx) -> CaseResult {
 }
 
 fn health(c: &BTreeMap<String, u64>, _t: bool) -> Result<(), String> {
-    for k in ["near-2^31", "straddles-wrap", "date-beyond-2038", "bump-at-boundary", "ixfr-client-behind-across-wrap", "ixfr-client-level", "ixfr-client-ahead", "ixfr-answer-single-soa", "ixfr-answer-transfer", "users-bump-ran", "users-ixfr-ran", "systime-other-era-than-reference", "systime-order-checked", "systime-reference-in-era-0", "users-sign-ran", "sign-period-crosses-2^32", "sign-period-inverted", "sign-period-2^31-apart", "sign-period-valid"] {
+    for k in ["near-2^31", "straddles-wrap", "date-beyond-2038", "bump-at-boundary", "ixfr-client-behind-across-wrap", "ixfr-client-level", "ixfr-client-ahead", "ixfr-answer-single-soa", "ixfr-answer-transfer", "users-bump-ran", "users-ixfr-ran", "systime-other-era-than-reference", "systime-order-checked", "systime-reference-in-era-0", "users-sign-ran", "sign-period-crosses-2^32", "sign-period-inverted", "sign-period-2^31-apart", "sign-period-valid", "new-near-2^31", "new-straddles-wrap", "new-inc-by-max", "ixfr-receiver-accepts", "ixfr-receiver-applies-diff-across-wrap"] {
         if c.get(k).copied().unwrap_or(0) < 50 {
             return Err(format!("class {k} starved"));
         }
@@ -329,6 +346,7 @@ pub fn prop() -> Prop {
             SubCheck::new("pairs", run_pairs, 400_000, 20_000_000, 40),
             SubCheck::new("datetime", run_datetime, 60_000, 2_000_000, 16),
             SubCheck::new("systime", run_systime, 200_000, 6_000_000, 40),
+            SubCheck::new("new-pairs", newapi::run_new_pairs, 300_000, 10_000_000, 40),
             SubCheck::new("users-bump", users::run_bump, 6_000, 150_000, 200),
             SubCheck::new("users-ixfr", users::run_ixfr, 8_000, 200_000, 300),
             SubCheck::new("users-sign", sign::run_sign, 40_000, 1_000_000, 40),
